@@ -57,29 +57,31 @@ MC_CONFIGS = {
         "quick": [("c02-n2", dict(nf=3, n=2, max_inputs=2, dirs=False, modes="BuildOnly", fails="NoFail", max_fail=0)),
                   ("c02-n3", dict(nf=3, n=3, max_inputs=1, dirs=False, modes="BuildOnly", fails="NoFail", max_fail=0))],
         "thorough": [("c02-n1", dict(nf=3, n=1, max_inputs=3, dirs=False, modes="BuildOnly", fails="NoFail", max_fail=0)),
-                     ("c02-n2", dict(nf=3, n=2, max_inputs=3, dirs=False, modes="BuildOnly", fails="NoFail", max_fail=0)),
+                     ("c02-n2", dict(nf=3, n=2, max_inputs=3, dirs=False, modes="BuildOnly", fails="NoFail", max_fail=0, liveness=False)),
                      ("c02-n3", dict(nf=3, n=3, max_inputs=2, dirs=False, modes="BuildOnly", fails="NoFail", max_fail=0)),
                      ("c02-nf4", dict(nf=4, n=2, max_inputs=1, dirs=False, modes="BuildOnly", fails="NoFail", max_fail=0, liveness=False))],
     },
     "C03": {
         "quick": [("c03-dirs", dict(nf=3, n=2, max_inputs=1, dirs=True, modes="BuildClean", fails="NoFail", max_fail=0)),
                   ("c03-n1", dict(nf=3, n=1, max_inputs=2, dirs=False, modes="BuildOnly", fails="NoFail", max_fail=0))],
-        "thorough": [("c03-dirs", dict(nf=3, n=2, max_inputs=3, dirs=True, modes="BuildClean", fails="NoFail", max_fail=0)),
-                     ("c03-n1", dict(nf=3, n=1, max_inputs=3, dirs=True, modes="BuildOnly", fails="NoFail", max_fail=0)),
-                     ("c03-n4", dict(nf=3, n=4, max_inputs=2, dirs=True, modes="BuildOnly", fails="NoFail", max_fail=0)),
+        "thorough": [("c03-dirs-live", dict(nf=3, n=2, max_inputs=1, dirs=True, modes="BuildClean", fails="NoFail", max_fail=0)),
+                     ("c03-dirs", dict(nf=3, n=2, max_inputs=2, dirs=True, modes="BuildOnly", fails="NoFail", max_fail=0, liveness=False)),
+                     ("c03-n1", dict(nf=3, n=1, max_inputs=2, dirs=True, modes="BuildOnly", fails="NoFail", max_fail=0)),
+                     ("c03-n4", dict(nf=3, n=4, max_inputs=1, dirs=True, modes="BuildOnly", fails="NoFail", max_fail=0)),
                      ("c03-nf4", dict(nf=4, n=2, max_inputs=1, dirs=False, modes="BuildOnly", fails="NoFail", max_fail=0, liveness=False))],
     },
     "C04": {
         "quick": [("c04-f1", dict(nf=3, n=2, max_inputs=1, dirs=False, modes="BuildOnly", fails="AllFail", max_fail=1)),
                   ("c04-f2", dict(nf=2, n=2, max_inputs=2, dirs=False, modes="BuildClean", fails="AllFail", max_fail=2))],
-        "thorough": [("c04-f2", dict(nf=3, n=2, max_inputs=2, dirs=False, modes="BuildClean", fails="AllFail", max_fail=2)),
-                     ("c04-f3", dict(nf=3, n=3, max_inputs=1, dirs=True, modes="BuildOnly", fails="AllFail", max_fail=3)),
+        "thorough": [("c04-f2", dict(nf=3, n=2, max_inputs=1, dirs=False, modes="BuildClean", fails="AllFail", max_fail=2, liveness=False)),
+                     ("c04-f3", dict(nf=3, n=3, max_inputs=1, dirs=False, modes="BuildOnly", fails="AllFail", max_fail=3, liveness=False)),
+                     ("c04-dirs", dict(nf=3, n=2, max_inputs=1, dirs=True, modes="BuildOnly", fails="AllFail", max_fail=1)),
                      ("c04-n1", dict(nf=3, n=1, max_inputs=2, dirs=False, modes="BuildOnly", fails="AllFail", max_fail=1))],
     },
     "C05": {
         "quick": [("c05-n2", dict(nf=3, n=2, max_inputs=2, dirs=False, modes="BuildOnly", fails="NoFail", max_fail=0)),
                   ("c05-n1", dict(nf=3, n=1, max_inputs=2, dirs=False, modes="BuildOnly", fails="NoFail", max_fail=0))],
-        "thorough": [("c05-n2", dict(nf=3, n=2, max_inputs=3, dirs=True, modes="BuildOnly", fails="NoFail", max_fail=0)),
+        "thorough": [("c05-n2", dict(nf=3, n=2, max_inputs=2, dirs=True, modes="BuildOnly", fails="NoFail", max_fail=0, liveness=False)),
                      ("c05-n3", dict(nf=3, n=3, max_inputs=2, dirs=False, modes="BuildOnly", fails="NoFail", max_fail=0)),
                      ("c05-nf4", dict(nf=4, n=2, max_inputs=1, dirs=False, modes="BuildOnly", fails="NoFail", max_fail=0, liveness=False)),
                      ("c05-nf4n3", dict(nf=4, n=3, max_inputs=1, dirs=False, modes="BuildOnly", fails="NoFail", max_fail=0, liveness=False))],
@@ -178,6 +180,26 @@ def scenario_sets(rng):
         for g in allg:
             s.append(dict(nf=nf, deps=digraph(nf, g), inputs=[["file", 1], ["file", 2], ["file", 3]], n=3, alias=g))
         sets.append(("all three files as inputs N=3", s, 3000))
+    # the coordinator polling while tasks are still outstanding (what it does every 100 ms in production): one such poll
+    # at a seeded point of a random schedule; each costs the code's own 100 ms sleep
+    s = []
+    for g in sample(0.2 if quick else 1.0):
+        for f in range(1, nf + 1):
+            fail = ["none"] * nf
+            fail[f - 1] = "post"
+            for inputs, rec, n in (([["dir", 4]], True, 2), ([["file", 1], ["file", 2]], False, 3), ([["file", 3], ["file", 2], ["file", 1]], False, 2)):
+                s.append(dict(nf=nf, deps=digraph(nf, g), fail=fail, inputs=inputs, recursive=rec, n=n, alias=g, policy="probe", reps=2 if quick else 6))
+        s.append(dict(nf=nf, deps=digraph(nf, g), inputs=[["dir", 4]], recursive=True, n=2, alias=g, policy="probe", reps=2 if quick else 6))
+    sets.append(("empty-poll probes (coordinator polls while tasks are outstanding)", s, None))
+    s = []
+    for i in range(40 if quick else 400):
+        nf2 = rng.choice((3, 4))
+        g = rng.getrandbits(nf2 * nf2) & rng.getrandbits(nf2 * nf2)
+        fail = ["none"] * nf2
+        if rng.random() < 0.5:
+            fail[rng.randrange(nf2)] = rng.choice(["pre", "post"])
+        s.append(dict(nf=nf2, deps=digraph(nf2, g), fail=fail, inputs=[["dir", nf2 + 1]], recursive=True, n=rng.choice((1, 2, 4)), alias=i, policy="ungated", reps=1))
+    sets.append(("ungated runs (production polling, 100 ms sleeps)", s, None))
     # larger graphs: random schedules and free-running threads
     s = []
     for i in range(300 if quick else 3000):
@@ -519,6 +541,8 @@ def io_faults(rep, wd, rng, quick):
     res = vh_cases(cases, wd, "c04faults", templates={}, procs=10)
     kinds = set()
     for m, r in zip(meta, res):
+        if r.get("skipped"):
+            continue   # the runner stopped after too many hung / panicked runs (each one already reported)
         st = r["steps"][-1]
         kinds.add((m["kind"], m["at"], m["mode"], m["via"]))
         ctx = f"[fault {m['kind']} at the {pos.get(m['at'], '-')} file, mode {m['mode']}, {m['via']}]"
